@@ -276,7 +276,7 @@ func (env *Env) selectField(base *Val, name string) *Val {
 			if i, ok := findField(pt.Elem(), name); ok {
 				a := env.c.fieldAddr(base, pt.Elem(), i)
 				ft := pt.Elem().Underlying().(*types.Struct).Field(i).Type()
-				if _, isStruct := ft.Underlying().(*types.Struct); isStruct && a.Kind != ACell {
+				if _, isStruct := ft.Underlying().(*types.Struct); isStruct && !isOpaque(ft) && a.Kind != ACell {
 					// embedded struct: its address (gives field access and an identity for ghost fields)
 					return ptrVal(types.NewPointer(ft), a)
 				}
@@ -733,7 +733,7 @@ func (env *Env) evalLocs(e *Expr) (locs []Loc, err error) {
 		base := env.eval(e.Args[0])
 		if base.K == VSlice {
 			et := elemTypeOf(base.T)
-			if _, isStruct := et.Underlying().(*types.Struct); isStruct {
+			if _, isStruct := et.Underlying().(*types.Struct); isStruct && !isOpaque(et) {
 				efail("modifies of struct slices not supported")
 			}
 			for _, c := range comps(et) {
